@@ -252,6 +252,20 @@ def arch_instances(level_text_):
     return (top["name"], top["num"]), top["subtree"][0]["num"]
 
 
+def arch_instances_shared(level_text_):
+    """The same level reached from two configurations (what a YAML anchor/alias produces: one
+    dictionary referenced twice): its instance range must mean the same under both."""
+    from teaal.parse.arch import Architecture
+    lvl = {"name": level_text_, "local": [], "subtree": [{"name": "Inner", "local": []}]}
+    y = {"architecture": {"cfgA": [{"name": "TopA", "local": [], "subtree": [lvl]}],
+                          "cfgB": [{"name": "TopB[0..1]", "local": [], "subtree": [lvl]}]}}
+    a = Architecture(y)
+    sp = a.get_spec()["architecture"]
+    la, lb = sp["cfgA"][0]["subtree"][0], sp["cfgB"][0]["subtree"][0]
+    return [(l["name"], l["num"], l["subtree"][0]["num"]) for l in (la, lb)] + \
+        [sp["cfgB"][0]["num"]]
+
+
 # ------------------------------------------------------------ mutation
 
 def mutate(rnd, s):
@@ -412,6 +426,15 @@ def shard(tier, seed, shard, nshards):
                                           "summary": "Architecture gives %r x%r (inner %r) for %r" % (
                                               nm, num, inner, text),
                                           "problems": [{"kind": "arch-instances"}],
+                                          "case": {"grammar": "arch", "text": text}})
+                sh = arch_instances_shared(text)
+                st.bump("verdicts", "arch/shared-level")
+                want = (struct[0], struct[1] + 1, 1)
+                if sh[0] != want or sh[1] != want or sh[2] != 2:
+                    st.violations.append({"property": ID, "known_finding": None,
+                                          "summary": "a level shared by two configurations: "
+                                                     "Architecture gives %r for %r" % (sh, text),
+                                          "problems": [{"kind": "arch-instances-shared-level"}],
                                           "case": {"grammar": "arch", "text": text}})
             except Exception as e:
                 st.violations.append({"property": ID, "known_finding": None,
